@@ -461,6 +461,63 @@ theorem rr_fair : Fair rr := by
     refine ⟨7 * n + k, by omega, ?_⟩
     rw [rr_kind]; omega
 
+/-! ## bounded fairness: a bound on the number of moves -/
+
+/-- every kind of move recurs within every window of `K` consecutive moves -/
+structure FairK (K : Nat) (sched : Nat → HOp) : Prop where
+  int : ∀ i, (sched i).internal = true
+  recur : ∀ k, k < 7 → ∀ n, ∃ m, n ≤ m ∧ m < n + K ∧ (sched m).kind = k
+
+theorem FairK.shift {K : Nat} {sched : Nat → HOp} (h : FairK K sched) : FairK K (fun i => sched (i + 1)) := by
+  refine ⟨fun i => h.int _, ?_⟩
+  intro k hk n
+  obtain ⟨m, hm, hm2, hkm⟩ := h.recur k hk (n + 1)
+  exact ⟨m - 1, by omega, by omega,
+    by show (sched (m - 1 + 1)).kind = k; rw [show m - 1 + 1 = m by omega]; exact hkm⟩
+
+/-- under `K`-bounded fairness the world is settled after at most `K · (lmu w + 1)` moves -/
+theorem fair_settles_bound {c : Cfg} {e : Env} (K : Nat) : ∀ (N : Nat) (w : CW), lmu w = N → Reach c e w →
+    ∀ sched, FairK K sched → ∃ n, n ≤ K * (N + 1) ∧ SettledC (hrun c e w (pre sched n)) := by
+  intro N
+  induction N using Nat.strongRecOn with
+  | _ N ih =>
+    intro w hN hr sched hf
+    rcases stuck_free' hr with h | ⟨o, ho⟩
+    · exact ⟨0, Nat.zero_le _, h⟩
+    · obtain ⟨m, _, hmK, hm⟩ := hf.recur o.kind (kind_lt_of_internal o ho.1) 0
+      have inner : ∀ (m : Nat) (sched : Nat → HOp), FairK K sched → (sched m).kind = o.kind →
+          ∃ n, n ≤ m + 1 + K * N ∧ SettledC (hrun c e w (pre sched n)) := by
+        intro m
+        induction m with
+        | zero =>
+          intro sched hf hm
+          rcases hstep_dichotomy c e w (sched 0) (hf.int 0) with hd | hd
+          · obtain ⟨n, hle, hn⟩ := ih (lmu (hstep c e w (sched 0))) (by omega) (hstep c e w (sched 0)) rfl
+              (Reach.step w _ hr) _ hf.shift
+            have : K * (lmu (hstep c e w (sched 0)) + 1) ≤ K * N := Nat.mul_le_mul_left K (by omega)
+            exact ⟨n + 1, by omega, by rw [hrun_pre_succ]; exact hn⟩
+          · have := (prod_kind c e w o (sched 0) ho hm).2
+            rw [hd] at this; omega
+        | succ m ihm =>
+          intro sched hf hm
+          rcases hstep_dichotomy c e w (sched 0) (hf.int 0) with hd | hd
+          · obtain ⟨n, hle, hn⟩ := ih (lmu (hstep c e w (sched 0))) (by omega) (hstep c e w (sched 0)) rfl
+              (Reach.step w _ hr) _ hf.shift
+            have : K * (lmu (hstep c e w (sched 0)) + 1) ≤ K * N := Nat.mul_le_mul_left K (by omega)
+            exact ⟨n + 1, by omega, by rw [hrun_pre_succ]; exact hn⟩
+          · obtain ⟨n, hle, hn⟩ := ihm (fun i => sched (i + 1)) hf.shift hm
+            exact ⟨n + 1, by omega, by rw [hrun_pre_succ, hd]; exact hn⟩
+      obtain ⟨n, hle, hn⟩ := inner m sched hf hm
+      refine ⟨n, ?_, hn⟩
+      have : K * (N + 1) = K * N + K := Nat.mul_succ K N
+      omega
+
+theorem rr_fairK : FairK 7 rr := by
+  refine ⟨rr_fair.int, ?_⟩
+  intro k hk n
+  refine ⟨n + (k + 7 - n % 7) % 7, by omega, by omega, ?_⟩
+  rw [rr_kind]; omega
+
 theorem hstep_tick_asleep (c : Cfg) (e : Env) (w : CW) (h : w.awake = false) : hstep c e w .tick = w := by
   simp [hstep, h]
 
